@@ -211,6 +211,12 @@ func negotiateFeatures(ctx context.Context, s *Session, first, ws bool, features
 				// TODO: What should we return here?
 				return mask, rw, stream.PolicyViolation
 			}
+			// The state may have changed since the features were listed (a
+			// feature negotiated in the meantime may have set a bit that this one
+			// prohibits).
+			if st := s.State(); st&data.feature.Necessary != data.feature.Necessary || st&data.feature.Prohibited != 0 {
+				return mask, rw, stream.PolicyViolation
+			}
 
 			// Add the start element(s) that we popped back so that the negotiate
 			// function can create a token decoder and have tokens match up and decode
@@ -242,6 +248,11 @@ func negotiateFeatures(ctx context.Context, s *Session, first, ws bool, features
 					if _, ok := s.negotiated[v.feature.Name.Space]; ok || v.feature.Negotiate == nil {
 						// If this feature has already been negotiated, or is informational
 						// only with no negotiation, skip it.
+						continue
+					}
+					// Eligibility was decided when the list was parsed, but a feature
+					// negotiated since then may have changed the state.
+					if st := s.State(); st&v.feature.Necessary != v.feature.Necessary || st&v.feature.Prohibited != 0 {
 						continue
 					}
 
